@@ -8,6 +8,6 @@ for id in $ids; do
   out=$(/verif/tools/try_patch.sh /verif/seeded/$id/patch.diff $prop $scale 2>&1)
   rc=$(echo "$out" | grep -o "exit=[0-9]*" | tail -1)
   vr=$(echo "$out" | grep -o "violating_runs=[0-9]*" | tail -1)
-  classes=$(echo "$out" | grep -o "candidate violation class \[[^]]*\]" | sed 's/candidate violation class //' | tr '\n' ' ')
+  classes=$(echo "$out" | grep "violation classes seen:" | sed 's/violation classes seen: //' | head -1)
   echo "$id check=$prop scale=$scale $rc $vr classes: $classes"
 done
